@@ -134,11 +134,11 @@ func genSqlwScenario(r *Rng, names bool) sqlwScenario {
 			sc.opts.TypeMap["nosuchcol"] = "TEXT"
 			sc.typeMapKV = append(sc.typeMapKV, [2]string{"nosuchcol", "TEXT"})
 		}
-		if r.Chance(15) {
+		if r.Chance(30) {
 			// a key that is the QUOTED spelling of a column which has no entry of its own: it names no column
 			for _, k := range df.ColumnNames() {
-				if _, has := sc.opts.TypeMap[k]; !has && isWord(k) {
-					q := Pick(r, []string{"\"" + k + "\"", "`" + k + "`"})
+				if _, has := sc.opts.TypeMap[k]; !has {
+					q := Pick(r, []string{(&dataframe.SQLiteDialect{}).QuoteIdentifier(k), (&dataframe.MySQLDialect{}).QuoteIdentifier(k)})
 					if _, isCol := df.Columns[q]; !isCol {
 						sc.opts.TypeMap[q] = "BLOB"
 						sc.typeMapKV = append(sc.typeMapKV, [2]string{q, "BLOB"})
